@@ -39,6 +39,85 @@ def _args(c):
     return inner, None
 
 
+def rule_I5(ctx):
+    """Roland partial -> sample references: the four slots are scanned independently (C02: every referenced sample is
+    collected; C14/C15: an unused or damaged slot does not hide the later ones)"""
+    from .sem import single_defs
+    pa = ctx.fn(RO + "partial_entry.py", "PartialEntryAdapter._parse", "I5")
+    cfg = ctx.cfg(pa, "I5")
+    defs = single_defs(pa)
+
+    def slots(e, depth=0):
+        if isinstance(e, ast.Name) and e.id in defs and depth < 3:
+            return slots(defs[e.id], depth + 1)
+        if isinstance(e, ast.Call) and len(e.args) == 1 and not e.keywords and isinstance(e.func, ast.Name) and e.func.id in ("ListContainer", "list", "tuple"):
+            return slots(e.args[0], depth + 1)
+        if isinstance(e, (ast.List, ast.Tuple)):
+            return [norm(x) for x in e.elts]
+        return None
+
+    want = [f"container.parameter.sample_{i}" for i in (1, 2, 3, 4)]
+    loops = [f for f in own_nodes(pa) if isinstance(f, ast.For) and slots(f.iter) is not None]
+    if len(loops) != 1:
+        ctx.ob("I5", pa, "Roland partial: one loop visits the sample slots of the partial", False, f"{len(loops)} candidate loops", inst="partial:loop")
+        return
+    loop = loops[0]
+    got = slots(loop.iter)
+    ctx.ob("I5", loop, "Roland partial: the slots visited are sample_1..sample_4 in order", got == want, "" if got == want else f"{got}", inst="partial:four")
+    # the list handed to PartialEntry(sample_entry_references=...)
+    kw = [k for c in own_nodes(pa) if isinstance(c, ast.Call) for k in c.keywords if k.arg == "sample_entry_references"]
+    ok = len(kw) == 1 and isinstance(kw[0].value, ast.Name)
+    ctx.ob("I5", pa, "Roland partial: the collected references are what the partial carries", ok, "", inst="partial:carried")
+    if not ok:
+        return
+    acc = kw[0].value.id
+    tgt = norm(loop.target)
+    lp = cfg.loop_of(loop)
+    n_err = n_ok = 0
+    for kind, path, edge in cfg.iteration_paths(lp, skip_labels=()):
+        if kind == "exit" and len(path) == 1:
+            continue  # the iterator is exhausted: all slots were visited
+        pr = _walk(ctx, pa, cfg, path)
+        if _infeasible(pr):
+            continue
+        appends = [s_ for s_ in pr.steps if s_.kind == "stmt" and isinstance(s_.ast, ast.Expr) and isinstance(s_.ast.value, ast.Call)
+                   and norm(s_.ast.value.func) == f"{acc}.append"]
+        through_handler = any(s_.kind == "except" for s_ in pr.steps)
+        lines = pr.lines()
+        if through_handler:
+            n_err += 1
+            if kind != "back":
+                ctx.ob("I5", loop, "an unused or unresolvable slot does not end the scan of the later slots", False,
+                       f"the error path through lines {lines} leaves the loop: samples referenced by later slots are never collected", inst=f"partial:continues:{kind}")
+            else:
+                ctx.ob("I5", loop, "an unused or unresolvable slot does not end the scan of the later slots", True, "", inst="partial:continues:back")
+                ctx.ob("I5", loop, "an unresolvable slot contributes no reference", not appends, "" if not appends else f"error path through lines {lines} appends", inst="partial:no-append")
+        else:
+            if kind != "back":
+                ctx.ob("I5", loop, "a resolved slot does not end the scan", False, f"path through lines {lines} leaves the loop", inst=f"partial:ok-continues:{kind}")
+                continue
+            n_ok += 1
+            parses = [c for c, e, st in calls_on(pr) if isinstance(c.func, ast.Attribute) and c.func.attr in ("_parse", "parse_stream", "_parsereport")]
+            good = len(appends) == 1 and len(parses) == 1
+            if good:
+                # what is appended is the value of this iteration's parse; the parse is given this iteration's slot
+                arg = appends[0].ast.value.args[0] if appends[0].ast.value.args else None
+                src = [s_ for s_ in pr.steps if s_.kind == "stmt" and isinstance(s_.ast, ast.Assign) and isinstance(arg, ast.Name)
+                       and norm(s_.ast.targets[0]) == arg.id]
+                good = (isinstance(arg, ast.Name) and len(src) == 1 and src[0].ast.value is parses[0]) or arg is parses[0]
+                body = " ".join(norm(s_.ast) for s_ in pr.steps if s_.kind == "stmt")
+                good = good and (f"['ref_container'] = {tgt}" in body)
+            ctx.ob("I5", loop, "a resolved slot appends exactly its own reference (parsed with this slot as ref_container)", good,
+                   "" if good else f"path through lines {lines}", inst="partial:append")
+    ctx.ob("I5", loop, "slot errors are handled inside the loop (ConstructError swallowed per slot)", n_err >= 1 and n_ok >= 1, f"error paths={n_err} ok paths={n_ok}", inst="partial:handler")
+    names = set()
+    for t in ast.walk(loop):
+        if isinstance(t, ast.Try):
+            for h in t.handlers:
+                names |= set(handler_names(h))
+    ctx.ob("I5", loop, "the per-slot handler catches ConstructError (unused slot: index -1 fails the reference parse)", "ConstructError" in names, f"{sorted(names)}", inst="partial:exceptions")
+
+
 def rule_I1(ctx):
     """a swallowed parse error of one record does not change where / whether the other records are read"""
     # (a) AKAI file table
@@ -116,20 +195,6 @@ def rule_I1(ctx):
         h = find_try_handler(c[0], fa, {"RequestedInvalidSector"})
         ok = h is not None and {"RequestedInvalidSector", "InvalidCharacter"} <= set(handler_names(h)) and "ConstructError" in raises_in(h.body)
     ctx.ob("I1", fa, "file content errors (bad sector reference, bad character) surface as ConstructError", ok, "", inst="file-adapter")
-    # (c) PartialEntryAdapter: each of the four sample references in its own try
-    pa = ctx.fn(RO + "partial_entry.py", "PartialEntryAdapter._parse", "I1")
-    fors = [f for f in own_nodes(pa) if isinstance(f, ast.For) and norm(f.iter) == "sample_ref_containers"]
-    ok = len(fors) == 1
-    if ok:
-        c = [x for x in ast.walk(fors[0]) if isinstance(x, ast.Call) and norm(x.func) == "parser._parse"]
-        ok = len(c) == 1
-        if ok:
-            h = find_try_handler(c[0], fors[0], {"ConstructError"})
-            ok = h is not None and isinstance(h.body[-1], ast.Continue) and {"ConstructError"} <= set(handler_names(h))
-    ctx.ob("I1", pa, "Roland partial: each of the four sample references is resolved in its own try; a bad one is skipped", ok, "", inst="partial:refs")
-    lst = [a for a in own_nodes(pa) if isinstance(a, ast.Assign) and norm(a.targets[0]) == "sample_ref_containers"]
-    ok = len(lst) == 1 and [norm(e) for e in lst[0].value.args[0].elts] == [f"container.parameter.sample_{i}" for i in (1, 2, 3, 4)] if lst and isinstance(lst[0].value, ast.Call) and lst[0].value.args and isinstance(lst[0].value.args[0], ast.List) else False
-    ctx.ob("I1", pa, "Roland partial: the four references are sample_1..sample_4 in order", ok, "", inst="partial:four")
     # (d) SafeListConstruct
     sl = ctx.fn("smpl_extract/util/constructs.py", "SafeListConstruct._parse", "I1")
     fors = [f for f in own_nodes(sl) if isinstance(f, ast.For) and norm(f.iter) == "range(count)"]
